@@ -57,6 +57,9 @@ type reqSpec struct {
 	Form   url.Values
 	Auth   opdrv.ClientAuth
 	Bearer string
+	// FormClientID: client_id is ALSO sent in the form although the client authenticates with the Authorization
+	// header or an assertion (legal and common: RFC 6749 only requires it "if the client is not authenticating")
+	FormClientID string
 }
 
 // env is the fresh world of one execution.
@@ -160,6 +163,9 @@ func (e *env) build(s *reqSpec) *http.Request {
 		f[k] = append([]string(nil), v...)
 	}
 	hook := s.Auth.Apply(f)
+	if s.FormClientID != "" {
+		f.Set("client_id", s.FormClientID)
+	}
 	r := e.w.NewRequest(s.Method, s.Path, f)
 	hook(r)
 	if s.Bearer != "" {
@@ -726,5 +732,38 @@ func catalogue() []*flowDef {
 	for _, l := range probeLayouts() {
 		add(&flowDef{Name: "ready_probes_" + l.Name, Class: "ready", OK: okReady, Prep: readySpec, Probes: l})
 	}
+
+	// --- redundant client identification: one flow per (endpoint that identifies the client x Basic / assertion) is
+	// repeated with client_id additionally in the form. The request is the same legal request; the endpoints differ in
+	// which of the places they read first and what they fall back to.
+	byName := map[string]*flowDef{}
+	for _, f := range fl {
+		byName[f.Name] = f
+	}
+	for _, b := range formIDBases {
+		base := byName[b.Flow]
+		d := *base
+		d.Name = base.Name + formIDSuffix
+		client := b.Client
+		d.Prep = func(e *env) (*reqSpec, error) {
+			s, err := base.Prep(e)
+			if err != nil {
+				return nil, err
+			}
+			s.FormClientID = client
+			return s, nil
+		}
+		add(&d)
+	}
 	return fl
+}
+
+const formIDSuffix = "+form_client_id"
+
+var formIDBases = []struct{ Flow, Client string }{
+	{"code_exchange_basic", "web"}, {"code_exchange_private_key_jwt", "jwt"}, {"refresh_basic", "web"},
+	{"client_credentials_basic", "svc"}, {"token_exchange_requested_access", "web"},
+	{"device_authorization_dev", "dev"}, {"device_poll_approved", "dev"},
+	{"introspection_basic", "web"}, {"introspection_assertion", "jwt"},
+	{"revocation_access", "web"}, {"revocation_refresh_private_key_jwt", "jwt"},
 }
